@@ -41,20 +41,22 @@ def h_history(V, window='low', steps=5, nreq=3, retries=False, race=False):
     world = RFWorld(V, n_hosts=1, protocol_version=pv)
     pool = world.pools[world.hosts[0]]
     conn = pool._connection
+    current = [None]            # kind of the history event being executed
     if race:
         # one pre-emption: while a thread is at a lock acquire/release of driver code (holding no lock), the event loop
         # thread delivers a pending response or a client timeout fires
         from harness import kit
 
         def other(*a):
-            ev = [('respond',) + p for p in world.pending()] + [('timer', t) for t in world.timers()]
+            # (the event-loop thread delivers one response at a time: no response inside the handling of a response)
+            ev = ([('respond',) + p for p in world.pending()] if current[0] != 'respond' else []) + [('timer', t) for t in world.timers()]
             e = ev[V.choice('pre_ev', len(ev))]
             V.tag('preempted_with', e[0])
             if e[0] == 'respond':
                 world.respond(e[1], e[2], world.rows(e[3]))
             else:
                 e[1].fire()
-        pre = kit.Preempter(V, None, other, only_unlocked=True, enabled=lambda: bool(world.pending() or world.timers()))
+        pre = kit.Preempter(V, None, other, only_unlocked=True, enabled=lambda: bool((world.pending() and current[0] != 'respond') or world.timers()))
         conn.lock = kit.SchedLock('connection.lock', pre)
         pool._lock = kit.SchedLock('pool._lock', pre)
         pool._stream_available_condition = kit.VirtualCondition(pool._lock)
@@ -86,6 +88,7 @@ def h_history(V, window='low', steps=5, nreq=3, retries=False, race=False):
             break
         e = ev[V.choice('ev%d' % step, len(ev))]
         V.tag('e%d' % step, e[0])
+        current[0] = e[0]
         if e[0] == 'send':
             ntag[0] += 1
             rf = world.new_future(ntag[0])
@@ -112,8 +115,10 @@ def h_history(V, window='low', steps=5, nreq=3, retries=False, race=False):
         p = world.pending()
         if p:
             c, stream, tag, msg = p[0]
+            current[0] = 'respond'
             world.respond(c, stream, world.rows(tag))
         elif world.tasks():
+            current[0] = 'task'
             world.executor.run_one(0)
         else:
             break
